@@ -822,7 +822,7 @@ func c15Versions(rules []c15Rule) []string {
 
 // c15E2EOverlap: 2-3 conversion requests in flight on one operator at the same time.
 func c15E2EOverlap(r *Run) {
-	n := r.N(160, 1600)
+	n := r.N(160, 1200)
 	r.Cases(600000, n, 0, func(c *Case, rng *Rng) {
 		var e c15E2E
 		var a, b string
